@@ -12,6 +12,8 @@ Open(c) == cst[c] = "open"
 Proj == [tclosed |-> tclosed, cst |-> cst,
          pool |-> [c \in Conn |-> IF Open(c) THEN pool[c] ELSE "x"],
          streams |-> [c \in Conn |-> IF Open(c) /\ pool[c] = "busy" THEN streams[c] ELSE 0],
+         \* callers inside pool.Get waiting for a dial (the pool's streamQueue counters; the harness sees their sum)
+         dqsum |-> IF tclosed THEN 0 ELSE Cardinality({e \in Ex : ex[e].pc = "wait" /\ cst[ex[e].c] = "dialing"}),
          nextqid |-> nextQid, reserved |-> reserved,
          nqueue |-> [c \in Conn |-> Cardinality(DOMAIN queue[c])],
          rl |-> [c \in Conn |-> rl[c].some],
